@@ -73,6 +73,32 @@ def run_emu(w):
         elif p[0] == "n":
             sch.next_mti = int(p[1])
             sch.next_sti = int(p[2])
+        elif p[0] == "z":
+            # snapshot-restore point through the public API: save, load into a freshly constructed machine, go on with that one
+            import os
+            import tempfile
+            from pce500.emulator import PCE500Emulator
+            import contextlib
+            import io
+
+            d = tempfile.mkdtemp(prefix="tsnap", dir=os.environ.get("VERIF_TMP", None))
+            path = os.path.join(d, "t.pcsnap")
+            try:
+                with contextlib.redirect_stdout(io.StringIO()):
+                    emu.save_snapshot(path)
+                    fresh = PCE500Emulator(save_lcd_on_exit=False)
+                    fresh.load_snapshot(path)
+            except Exception as e:  # noqa: BLE001
+                return f"ERR snapshot:{type(e).__name__}"
+            finally:
+                try:
+                    os.remove(path)
+                    os.rmdir(d)
+                except OSError:
+                    pass
+            global _EMU
+            _EMU = emu = fresh
+            sch = emu._scheduler
         else:
             return "ERR bad-op"
         cur = emu.memory.read_byte(isr_addr) & 0xFF
